@@ -529,6 +529,15 @@ fn preds_ok() -> Vec<String> {
         "http://x/\u{10000}x",
         "http://x/a_b-c.d",
         "http://x/ns#P",
+        // local names ending with NameChars that are not Unicode-alphanumeric (combining mark,
+        // middle dot, undertie) or with NameStartChars that are symbols / non-BMP
+        "http://x/cafe\u{301}",
+        "http://x/a\u{b7}",
+        "http://x/p\u{203f}",
+        "http://x/\u{20ac}",
+        "http://x/p\u{1F600}",
+        "http://x/\u{915}\u{93e}",
+        "http://x/\u{e01}\u{e34}",
     ]
     .iter()
     .map(|s| s.to_string())
